@@ -64,53 +64,32 @@ func init() {
 		limit := int64(-1)
 		limitAfter := int64(0)
 		testsAfterUnquote := false
-		if f := parseFile("pkg/model/field/field.go"); f != nil {
-			fd := funcDecl(f, "", "NewFieldsFromKVString")
+		{
+			pkg, _ := c13PkgFuncs("pkg/model/field")
+			fd := pkg["NewFieldsFromKVString"]
 			if fd == nil {
 				problem("field.NewFieldsFromKVString not found")
 			} else {
-				var unquotePos token.Pos
-				ast.Inspect(fd.Body, func(n ast.Node) bool {
-					if ce, ok := n.(*ast.CallExpr); ok {
-						if se, ok := ce.Fun.(*ast.SelectorExpr); ok && se.Sel.Name == "Unquote" {
-							unquotePos = ce.Pos()
+				// events in source order, same-package helpers inlined: length tests (any spelling) and the strconv.Unquote call
+				unquoteSeen := false
+				c13Walk(fd.Body, pkg, 2, map[*ast.FuncDecl]bool{fd: true}, func(n ast.Node) {
+					if c13CallName(n) == "Unquote" {
+						unquoteSeen = true
+					}
+					if e, ok := n.(ast.Expr); ok {
+						if lim, ok := c13LenLimit(e); ok {
+							if !unquoteSeen && limit < 0 {
+								limit = lim
+							}
+							if unquoteSeen && !testsAfterUnquote {
+								testsAfterUnquote, limitAfter = true, lim
+							}
 						}
 					}
-					return true
 				})
-				ast.Inspect(fd.Body, func(n ast.Node) bool {
-					is, ok := n.(*ast.IfStmt)
-					if !ok {
-						return true
-					}
-					be, ok := is.Cond.(*ast.BinaryExpr)
-					if !ok || be.Op != token.GTR {
-						return true
-					}
-					ce, ok := be.X.(*ast.CallExpr)
-					if !ok {
-						return true
-					}
-					if id, ok := ce.Fun.(*ast.Ident); !ok || id.Name != "len" {
-						return true
-					}
-					lit, ok := be.Y.(*ast.BasicLit)
-					if !ok {
-						return true
-					}
-					n64, err := strconv.ParseInt(lit.Value, 0, 64)
-					if err != nil {
-						return true
-					}
-					if limit < 0 {
-						limit = n64
-					}
-					if unquotePos != token.NoPos && is.Pos() > unquotePos && !testsAfterUnquote {
-						testsAfterUnquote = true
-						limitAfter = n64
-					}
-					return true
-				})
+				if !unquoteSeen {
+					problem("field.NewFieldsFromKVString: the strconv.Unquote call was not found (the facts about the length tests around it cannot be read)")
+				}
 			}
 		}
 		if limit < 0 {
@@ -128,143 +107,214 @@ func init() {
 		// fact: api/rpc has a function unmarshalString whose first statement is `if idx, uln, err := xbinary.UnmarshalUint(buf);
 		// err == nil && uln > uint(len(buf)-idx) { return … error }`, and no decoder of api/rpc calls xbinary.UnmarshalString /
 		// UnmarshalBytes directly (only that wrapper does).
+		// Structural reading (tolerant to renaming / moving the wrapper): every api/rpc function that calls xbinary.UnmarshalString or
+		// UnmarshalBytes in its own body ("raw caller") must, before that call (helpers inlined), decode the length with
+		// UnmarshalUint and compare something with an expression over len(…) in an `if` that returns a non-nil error.
 		guard, outside := false, 0
-		for _, rel := range []string{"api/rpc/encoder.go", "api/rpc/ingestor.go", "api/rpc/querier.go", "api/rpc/admin.go", "api/rpc/pipes.go", "api/rpc/client.go", "api/rpc/server.go"} {
-			f := parseFile(rel)
-			if f == nil {
-				continue
+		{
+			pkg, all := c13PkgFuncs("api/rpc")
+			raw, guardedRaw := 0, 0
+			isRawCall := func(n ast.Node) bool {
+				ce, ok := n.(*ast.CallExpr)
+				if !ok {
+					return false
+				}
+				se, ok := ce.Fun.(*ast.SelectorExpr)
+				if !ok || (se.Sel.Name != "UnmarshalString" && se.Sel.Name != "UnmarshalBytes") {
+					return false
+				}
+				id, ok := se.X.(*ast.Ident)
+				return ok && id.Name == "xbinary"
 			}
-			for _, d := range f.Decls {
-				fd, ok := d.(*ast.FuncDecl)
-				if !ok || fd.Body == nil {
+			for _, fd := range all {
+				own := false
+				ast.Inspect(fd.Body, func(n ast.Node) bool {
+					if n != nil && isRawCall(n) {
+						own = true
+					}
+					return true
+				})
+				if !own {
 					continue
 				}
-				isWrapper := fd.Recv == nil && fd.Name.Name == "unmarshalString"
-				if isWrapper && len(fd.Body.List) > 0 {
-					if is, ok := fd.Body.List[0].(*ast.IfStmt); ok && is.Init != nil {
-						initOK := false
-						if as, ok := is.Init.(*ast.AssignStmt); ok && len(as.Rhs) == 1 {
-							if ce, ok := as.Rhs[0].(*ast.CallExpr); ok {
-								if se, ok := ce.Fun.(*ast.SelectorExpr); ok && se.Sel.Name == "UnmarshalUint" {
-									initOK = true
-								}
-							}
-						}
-						condOK := false
-						ast.Inspect(is.Cond, func(n ast.Node) bool {
-							if be, ok := n.(*ast.BinaryExpr); ok && be.Op == token.GTR {
-								x, okx := be.X.(*ast.Ident)
-								if okx && x.Name == "uln" && strings.Replace(exprString(be.Y), " ", "", -1) == "uint(len(buf)-idx)" {
-									condOK = true
+				sawUint, sawGuard, rawGuarded := false, false, true
+				c13Walk(fd.Body, pkg, 2, map[*ast.FuncDecl]bool{fd: true}, func(n ast.Node) {
+					if c13CallName(n) == "UnmarshalUint" {
+						sawUint = true
+					}
+					if isRawCall(n) && !(sawUint && sawGuard) {
+						rawGuarded = false
+					}
+					if is, ok := n.(*ast.IfStmt); ok {
+						cmp := false
+						ast.Inspect(is.Cond, func(m ast.Node) bool {
+							if be, ok := m.(*ast.BinaryExpr); ok {
+								switch be.Op {
+								case token.GTR, token.LSS, token.GEQ, token.LEQ:
+									if strings.Contains(exprString(be.X), "len(") || strings.Contains(exprString(be.Y), "len(") {
+										cmp = true
+									}
 								}
 							}
 							return true
 						})
-						retOK := false
-						for _, st := range is.Body.List {
-							if rs, ok := st.(*ast.ReturnStmt); ok && len(rs.Results) == 3 {
-								if id, ok := rs.Results[2].(*ast.Ident); !ok || id.Name != "nil" {
-									retOK = true
+						if cmp {
+							for _, st := range is.Body.List {
+								if c13ReturnsError(st) {
+									sawGuard = true
 								}
 							}
 						}
-						guard = initOK && condOK && retOK
 					}
-				}
-				if !isWrapper {
-					ast.Inspect(fd.Body, func(n ast.Node) bool {
-						if ce, ok := n.(*ast.CallExpr); ok {
-							if se, ok := ce.Fun.(*ast.SelectorExpr); ok && (se.Sel.Name == "UnmarshalString" || se.Sel.Name == "UnmarshalBytes") {
-								if id, ok := se.X.(*ast.Ident); ok && id.Name == "xbinary" {
-									outside++
-								}
-							}
-						}
-						return true
-					})
+				})
+				raw++
+				if rawGuarded {
+					guardedRaw++
+				} else {
+					outside++
 				}
 			}
+			if raw == 0 {
+				problem("no function of api/rpc calls xbinary.UnmarshalString / UnmarshalBytes any more: the length-guard fact cannot be read")
+			}
+			guard = raw > 0 && guardedRaw == raw
 		}
 		l.p("/-- api/rpc decodes every length-prefixed string through `unmarshalString`, which rejects a length prefix that exceeds the")
-		l.p("bytes left in the buffer before calling `xbinary.UnmarshalString` (direct library calls elsewhere in api/rpc: %d) -/", outside)
+		l.p("bytes left in the buffer before calling `xbinary.UnmarshalString` (unguarded direct library calls in api/rpc: %d) -/", outside)
 		l.p("def rpcStringLengthGuard : Bool := %s", leanBool(guard && outside == 0))
 
 		// --- EscapeJsonStr ------------------------------------------------------------------------------------
 		// `if c != utf8.RuneError || size != 1 { i += size; continue }` — the test that lets a well-formed U+FFFD advance
+		// Structural reading (helpers inlined): after the utf8.DecodeRuneInString call, the test that decides whether a rune is skipped
+		// by its size. New form (d161ff4): `a != RuneError || b != 1` in either order, `!(a == RuneError && b == 1)`, or
+		// `a == RuneError && b == 1 {…} else {skip}`, with an `x += y` in the skipping branch; old form: the bare `a != RuneError`
+		// with `x += y` in its body. Anything else: the fact cannot be read.
 		fix := false
-		if f := parseFile("pkg/utils/json.go"); f != nil {
-			fd := funcDecl(f, "", "EscapeJsonStr")
+		{
+			pkg, _ := c13PkgFuncs("pkg/utils")
+			fd := pkg["EscapeJsonStr"]
 			if fd == nil {
 				problem("utils.EscapeJsonStr not found")
 			} else {
-				ast.Inspect(fd.Body, func(n ast.Node) bool {
-					is, ok := n.(*ast.IfStmt)
-					if !ok {
+				isRuneErr := func(e ast.Expr, op token.Token) bool {
+					be, ok := c13Unparen(e).(*ast.BinaryExpr)
+					if !ok || be.Op != op {
+						return false
+					}
+					return strings.HasSuffix(exprString(be.X), "RuneError") || strings.HasSuffix(exprString(be.Y), "RuneError")
+				}
+				isOne := func(e ast.Expr, op token.Token) bool {
+					be, ok := c13Unparen(e).(*ast.BinaryExpr)
+					if !ok || be.Op != op {
+						return false
+					}
+					if n, ok := c13Lit(be.Y); ok && n == 1 {
 						return true
 					}
-					be, ok := is.Cond.(*ast.BinaryExpr)
-					if !ok || be.Op != token.LOR {
-						return true
-					}
-					x, ok1 := be.X.(*ast.BinaryExpr)
-					y, ok2 := be.Y.(*ast.BinaryExpr)
-					if !ok1 || !ok2 || x.Op != token.NEQ || y.Op != token.NEQ {
-						return true
-					}
-					xs, ok1 := x.Y.(*ast.SelectorExpr)
-					yi, ok2 := y.X.(*ast.Ident)
-					yl, ok3 := y.Y.(*ast.BasicLit)
-					if !ok1 || !ok2 || !ok3 || xs.Sel.Name != "RuneError" || yi.Name != "size" || yl.Value != "1" {
-						return true
-					}
-					// the body advances by size
-					ast.Inspect(is.Body, func(m ast.Node) bool {
-						if as, ok := m.(*ast.AssignStmt); ok && as.Tok == token.ADD_ASSIGN && len(as.Lhs) == 1 && len(as.Rhs) == 1 {
-							if li, ok := as.Lhs[0].(*ast.Ident); ok && li.Name == "i" {
-								if ri, ok := as.Rhs[0].(*ast.Ident); ok && ri.Name == "size" {
-									fix = true
-								}
-							}
+					n, ok := c13Lit(be.X)
+					return ok && n == 1
+				}
+				advances := func(b *ast.BlockStmt) bool {
+					r := false
+					ast.Inspect(b, func(m ast.Node) bool {
+						if as, ok := m.(*ast.AssignStmt); ok && as.Tok == token.ADD_ASSIGN {
+							r = true
 						}
 						return true
 					})
-					return true
+					return r
+				}
+				pair := func(x, y ast.Expr, op token.Token) bool {
+					return (isRuneErr(x, op) && isOne(y, op)) || (isRuneErr(y, op) && isOne(x, op))
+				}
+				decoded, newForm, oldForm := false, false, false
+				c13Walk(fd.Body, pkg, 2, map[*ast.FuncDecl]bool{fd: true}, func(n ast.Node) {
+					if c13CallName(n) == "DecodeRuneInString" {
+						decoded = true
+					}
+					is, ok := n.(*ast.IfStmt)
+					if !ok || !decoded {
+						return
+					}
+					cond := c13Unparen(is.Cond)
+					if be, ok := cond.(*ast.BinaryExpr); ok && be.Op == token.LOR && pair(be.X, be.Y, token.NEQ) && advances(is.Body) {
+						newForm = true
+					}
+					if ue, ok := cond.(*ast.UnaryExpr); ok && ue.Op == token.NOT {
+						if be, ok := c13Unparen(ue.X).(*ast.BinaryExpr); ok && be.Op == token.LAND && pair(be.X, be.Y, token.EQL) && advances(is.Body) {
+							newForm = true
+						}
+					}
+					if be, ok := cond.(*ast.BinaryExpr); ok && be.Op == token.LAND && pair(be.X, be.Y, token.EQL) {
+						if eb, ok := is.Else.(*ast.BlockStmt); ok && advances(eb) {
+							newForm = true
+						}
+					}
+					if isRuneErr(cond, token.NEQ) && advances(is.Body) {
+						oldForm = true
+					}
 				})
+				switch {
+				case newForm:
+					fix = true
+				case oldForm:
+					fix = false
+				default:
+					problem("utils.EscapeJsonStr: the test after utf8.DecodeRuneInString that decides whether a rune is skipped by its size has a shape the extractor does not know")
+				}
 			}
 		}
+
 		// --- api/rpc: does wpIterator.init validate the whole packet? (commit c6bbc14) -----------------------------------
 		// fact: init contains a `for i := 0; i < wpi.recs; i++` loop that calls unmarshalLogEvent and NewFieldsFromKVString and
 		// returns an error from inside
+		// Structural reading: somewhere in init — or in a same-package function / method it calls (depth <= 2) — there is a loop whose
+		// body (helpers inlined) calls unmarshalLogEvent and NewFieldsFromKVString and returns a non-nil error at least twice.
 		validates := false
-		if f := parseFile("api/rpc/ingestor.go"); f != nil {
-			if fd := funcDecl(f, "wpIterator", "init"); fd == nil {
-				problem("wpIterator.init not found in api/rpc/ingestor.go")
+		{
+			pkg, all := c13PkgFuncs("api/rpc")
+			var initFd *ast.FuncDecl
+			for _, fd := range all {
+				if fd.Name.Name == "init" && fd.Recv != nil && len(fd.Recv.List) == 1 && strings.Contains(exprString(fd.Recv.List[0].Type), "wpIterator") {
+					initFd = fd
+				}
+			}
+			if initFd == nil {
+				problem("wpIterator.init not found in api/rpc")
 			} else {
-				ast.Inspect(fd.Body, func(n ast.Node) bool {
-					fs, ok := n.(*ast.ForStmt)
-					if !ok || fs.Cond == nil || strings.Replace(exprString(fs.Cond), " ", "", -1) != "i<wpi.recs" {
-						return true
+				partial := false
+				c13Walk(initFd.Body, pkg, 2, map[*ast.FuncDecl]bool{initFd: true}, func(n ast.Node) {
+					var body *ast.BlockStmt
+					switch x := n.(type) {
+					case *ast.ForStmt:
+						body = x.Body
+					case *ast.RangeStmt:
+						body = x.Body
 					}
-					dec, kv, ret := false, false, 0
-					ast.Inspect(fs.Body, func(m ast.Node) bool {
-						switch x := m.(type) {
-						case *ast.CallExpr:
-							if id, ok := x.Fun.(*ast.Ident); ok && id.Name == "unmarshalLogEvent" {
-								dec = true
-							}
-							if se, ok := x.Fun.(*ast.SelectorExpr); ok && se.Sel.Name == "NewFieldsFromKVString" {
-								kv = true
-							}
-						case *ast.ReturnStmt:
-							ret++
+					if body == nil {
+						return
+					}
+					dec, kv, rets := false, false, 0
+					c13Walk(body, pkg, 2, map[*ast.FuncDecl]bool{initFd: true}, func(m ast.Node) {
+						switch c13CallName(m) {
+						case "unmarshalLogEvent":
+							dec = true
+						case "NewFieldsFromKVString":
+							kv = true
 						}
-						return true
+						if c13ReturnsError(m) {
+							rets++
+						}
 					})
-					if dec && kv && ret >= 2 {
+					if dec && kv && rets >= 2 {
 						validates = true
+					} else if dec || kv {
+						partial = true
 					}
-					return true
 				})
+				if !validates && partial {
+					problem("wpIterator.init has a loop that decodes events or parses field texts but is not the validation loop the model knows (both calls, an error return for each): the fact wpInitValidates cannot be read")
+				}
 			}
 		}
 		l.p("/-- `wpIterator.init` decodes every announced event and parses its field text before it accepts the packet -/")
